@@ -5,6 +5,7 @@ import HpxVerif.Lemmas.BmocNot
 import HpxVerif.Lemmas.BmocViews
 import HpxVerif.Lemmas.BmocXor3
 import HpxVerif.Lemmas.BmocOr2
+import HpxVerif.Lemmas.CoverAllWF
 
 set_option autoImplicit false   -- an unknown identifier in a statement is an error, never a new variable
 
@@ -214,5 +215,57 @@ theorem xor_good (A B : BMOC) (gA : Good A) (gB : Good B) : ∃ R, BMOC.xor A B 
   refine ⟨R, h1, ?_, h3, ?_⟩
   · rw [h2]; have := gA.1; have := gB.1; omega
   · rw [h2]; exact h5
+
+/-! ## every coverage query returns a well-formed BMOC, for every input and every answer of the floating-point tests;
+    closure under any history of operators
+
+`CoverAll.Reach α cfg m`: `m` is obtained from outputs of `cone_coverage_approx(_custom)`, `elliptical_cone_coverage(_custom)`,
+`polygon_coverage` (either mode) by any sequence of `not`, `and`, `or`, `xor`; `CoverAll.Good m`: `depth_max ≤ 29`, valid
+raw entries, well-formed cell list. -/
+
+section AllCoverages
+open Hpx Hpx.Bmoc Hpx.Cover Hpx.CoverAll
+
+/-- **1. `cone_coverage_approx`**: every returned BMOC is well formed — all-sky, base-cell start, starting depth with
+    recursion, small-cone branch; every input, every numeric instance, every build -/
+theorem cone_coverage_wf {α : Type} [Num α] (cfg : Cfg) (depth : Nat) (lon lat r : α) (b : BMOC)
+    (h : coneCoverageApprox cfg depth lon lat r = some b) :
+    b.dmax = depth ∧ (∀ e ∈ b.entries, ValidRaw depth e) ∧ WF depth (cellsOf depth b.entries) ∧
+    b.entries.Pairwise (· < ·) :=
+  Hpx.CoverAll.cone_coverage_wf cfg depth lon lat r b h
+
+/-- **2. `cone_coverage_approx_custom`**: descent at `depth + delta_depth`, then `to_lower_depth` and nothing else
+    (`delta_depth = 0`: `cone_coverage_approx`) -/
+theorem cone_coverage_custom_wf {α : Type} [Num α] (cfg : Cfg) (depth deltaDepth : Nat) (lon lat r : α) (b : BMOC)
+    (h : coneCoverageApproxCustom cfg depth deltaDepth lon lat r = some b) :
+    b.dmax = depth ∧ (∀ e ∈ b.entries, ValidRaw depth e) ∧ WF depth (cellsOf depth b.entries) ∧
+    b.entries.Pairwise (· < ·) :=
+  Hpx.CoverAll.cone_coverage_custom_wf cfg depth deltaDepth lon lat r b h
+
+/-- **3. `elliptical_cone_coverage(_custom)`** (including `delta_depth = 0`): every returned BMOC is well formed -/
+theorem elliptical_cone_coverage_wf {α : Type} [Num α] (cfg : Cfg) (depth deltaDepth : Nat) (lon lat a b pa : α)
+    (m : BMOC) (h : Sph.ellipticalConeCoverageCustom cfg depth deltaDepth lon lat a b pa = some m) :
+    m.dmax = depth ∧ (∀ e ∈ m.entries, ValidRaw depth e) ∧ WF depth (cellsOf depth m.entries) ∧
+    m.entries.Pairwise (· < ·) :=
+  Hpx.CoverAll.elliptical_cone_coverage_wf cfg depth deltaDepth lon lat a b pa m h
+
+/-- **4. `polygon_coverage(vertices, exact_solution)`, both modes** -/
+theorem polygon_coverage_wf {α : Type} [Num α] (cfg : Cfg) (depth : Nat) (vertices : List (α × α)) (exact : Bool)
+    (m : BMOC) (h : Sph.polygonCoverage cfg depth vertices exact = some m) :
+    m.dmax = depth ∧ (∀ e ∈ m.entries, ValidRaw depth e) ∧ WF depth (cellsOf depth m.entries) ∧
+    m.entries.Pairwise (· < ·) :=
+  Hpx.CoverAll.polygon_coverage_wf cfg depth vertices exact m h
+
+/-- **every BMOC reachable from the coverage queries through any history of `not`/`and`/`or`/`xor` is well formed**,
+    and `or`/`xor` never panic on such operands -/
+theorem reachable_bmoc_good {α : Type} [Num α] (cfg : Cfg) (m : BMOC) (h : Reach α cfg m) : Good m :=
+  Hpx.CoverAll.reach_good cfg m h
+
+theorem reachable_or_xor_defined {α : Type} [Num α] (cfg : Cfg) (a b : BMOC) (ha : Reach α cfg a) (hb : Reach α cfg b) :
+    (∃ m, BMOC.or a b = some m) ∧ ∃ m, BMOC.xor a b = some m :=
+  Hpx.CoverAll.reach_or_xor_defined cfg a b ha hb
+
+
+end AllCoverages
 
 end Hpx.C09
